@@ -89,6 +89,7 @@ type RunResult struct {
 	Unknown    map[string]int // label -> inconclusive count
 	Funcs      map[string]int // functions entered -> instr count
 	Blocks     map[*ssa.Function][]bool // basic blocks entered (code under test only)
+	Degraded   map[string]int           // reasons for which this path covers less than its symbolic inputs say
 	Steps      int
 	Forks      map[string]int
 	SamplePC   []string
@@ -152,6 +153,8 @@ type Machine struct {
 	now     int64
 	timers  []*timer
 	conds     map[*Value]*condState
+	numeralOf map[T]string // numeral terms narrowed to a concrete string (degradeNumeral)
+	numeralUnsigned map[T]bool
 	timerObjs map[*Value]*ChanObj // *time.Timer cell -> its channel
 	mutexes map[*Value]*mutexState
 	wgs     map[*Value]*wgState
